@@ -41,7 +41,7 @@ var plan = map[string]propSpec{
 	"C09": {"fault_enumeration", []partSpec{{"vconc", "faults"}}},
 	"C10": {"fault_enumeration", []partSpec{{"vseq", "corrupt"}}},
 	"C11": {"exploration", []partSpec{{"vseq", "total"}}},
-	"C12": {"model_checking", []partSpec{{"vconc", "sched"}}},
+	"C12": {"model_checking", []partSpec{{"vconc", "litmus"}, {"vconc", "sched"}}},
 	"C13": {"exploration", []partSpec{{"vseq", "chunks"}}},
 	"C14": {"model_checking", []partSpec{{"vconc", "cache"}}},
 	"C15": {"exploration", []partSpec{{"vseq", "idxrt"}}},
@@ -202,6 +202,35 @@ func main() {
 		merged.Merge(q)
 	}
 
+	// thorough tier: free-running pass under the race detector for the scheduler-based parts
+	// (auxiliary and sampling: it checks the data-race-freedom premise of the HB state key; it
+	// is reported under assumptions and never decides the property)
+	if tier == "thorough" && need["vconc"] {
+		for _, p := range spec.parts {
+			if p.bin != "vconc" || p.part == "litmus" {
+				continue
+			}
+			renv := append(goEnv(), "CGO_ENABLED=1", "GORACE=halt_on_error=0 exitcode=0")
+			rbin := filepath.Join(build, "vconc-race")
+			if out, err := run(root, renv, "go", "build", "-race", "-tags", "verif", "-overlay", filepath.Join(build, "overlay", "overlay.json"), "-o", rbin, "./cmd/vconc"); err != nil {
+				merged.Assume("race pass not run: -race build failed: " + firstLine(out))
+				continue
+			}
+			out, _ := run(root, renv, rbin, "-prop", id, "-part", p.part, "-tier", "quick", "-racepass", "5")
+			races := strings.Count(out, "WARNING: DATA RACE")
+			last := ""
+			for _, l := range strings.Split(strings.TrimSpace(out), "\n") {
+				if strings.HasPrefix(l, "racepass ") {
+					last = l
+				}
+			}
+			merged.Assume(fmt.Sprintf("data-race freedom between synchronisation operations (premise of the happens-before state key): free-running -race pass: %s; data race reports: %d", last, races))
+			if races > 0 {
+				fmt.Fprintf(os.Stderr, "ASSUMPTION-FAILURE property=%s part=%s: the race detector reported %d data races in the free-running pass (see DESIGN.md 2.5)\n", id, p.part, races)
+			}
+		}
+	}
+
 	// known findings
 	ks := ev.LoadKnown(filepath.Join(root, "known_findings.txt"))
 	nviol := 0
@@ -282,6 +311,13 @@ func main() {
 	if nviol > 0 {
 		os.Exit(1)
 	}
+}
+
+func firstLine(s string) string {
+	if i := strings.Index(s, "\n"); i >= 0 {
+		return s[:i]
+	}
+	return s
 }
 
 type replayFile struct {
